@@ -918,6 +918,86 @@ def r04h(run):
     run.floor("R04h", "protocol operations on input-derived values", total, 8)
 
 
+REGEX_FUNCS = {"compile", "match", "fullmatch", "search", "sub", "subn", "split", "findall", "finditer"}
+REGEX_MODULES = ["utype.utils.transform", "utype.parser.rule", "utype.parser.field", "utype.parser.base",
+                 "utype.parser.func", "utype.parser.cls", "utype.parser.options", "utype.schema", "utype.types",
+                 "utype.utils.functional", "utype.utils.encode", "utype.utils.base"]
+
+
+def shipped_patterns(run):
+    """(where, node, pattern text) for every regular expression the library itself matches against input text: pattern
+    arguments of re.* calls that fold to a string, and the `regex` constraint of the shipped constrained types"""
+    from ..lib import fold_str
+    out = []
+    unfolded = 0
+    for modname in REGEX_MODULES:
+        if modname not in run.repo.modules:
+            continue
+        mod = run.repo.modules[modname]
+        # class bodies: constants usable in f-strings, `regex = ...` constraints, re.compile tables
+        for C in mod.classes.values():
+            scopes = (C.assigns, mod.assigns)
+            if "regex" in C.assigns:
+                p_ = fold_str(C.assigns["regex"], *scopes)
+                if p_ is not None:
+                    out.append((C.ref, C.assigns["regex"], p_, f"{C.name}.regex"))
+            for st in C.node.body:
+                if isinstance(st, (ast.FunctionDef, ast.AsyncFunctionDef)):
+                    continue
+                for c in ast.walk(st):
+                    if isinstance(c, ast.Call) and isinstance(c.func, ast.Attribute) and c.func.attr in REGEX_FUNCS \
+                            and unparse(c.func.value) == "re" and c.args:
+                        p_ = fold_str(c.args[0], *scopes)
+                        if p_ is None:
+                            unfolded += 1
+                        else:
+                            out.append((C.ref, c, p_, f"{unparse(c.func)}(...) in the body of {C.name}"))
+        for st in mod.tree.body:
+            if isinstance(st, (ast.FunctionDef, ast.AsyncFunctionDef, ast.ClassDef)):
+                continue
+            for c in ast.walk(st):
+                if isinstance(c, ast.Call) and isinstance(c.func, ast.Attribute) and c.func.attr in REGEX_FUNCS \
+                        and unparse(c.func.value) == "re" and c.args:
+                    p_ = fold_str(c.args[0], mod.assigns)
+                    if p_ is not None:
+                        out.append((f"{modname}:<module>", c, p_, f"{unparse(c.func)}(...) at module level"))
+        for f in mod.functions.values():
+            scopes = ((f.cls.assigns,) if f.cls is not None else ()) + (mod.assigns,)
+            for c in walk_shallow(f.node):
+                if isinstance(c, ast.Call) and isinstance(c.func, ast.Attribute) and c.func.attr in REGEX_FUNCS \
+                        and unparse(c.func.value) == "re" and c.args:
+                    p_ = fold_str(c.args[0], *scopes)
+                    if p_ is not None:
+                        out.append((f, c, p_, f"{unparse(c.func)}(...)"))
+                    # a pattern that is a parameter / a declared constraint is the declaration's own: not the library's
+    return out, unfolded
+
+
+def r04i(run):
+    """no regular expression the library matches against input text can backtrack exponentially"""
+    from .. import redos
+    pats, unfolded = shipped_patterns(run)
+    run.floor("R04i", "regular expressions matched against input text", len(pats), 3)
+    run.check("R04i", "utype.utils.transform:TypeTransformer", "every pattern of a class-level re.compile table folds to a string",
+              unfolded == 0, construct="pattern not foldable", message=f"{unfolded} class-level pattern(s) are not "
+              f"compile-time strings: they cannot be analysed")
+    for where, node, pat, what in pats:
+        try:
+            w = redos.analyse(pat)
+        except redos.Unsupported as e:
+            run.check("R04i", where, f"`{pat[:40]}` ({what}) can be analysed", False, construct=f"unsupported regex {pat[:40]}",
+                      message=f"the pattern {pat!r} uses {e}: its backtracking behaviour is not decided", node=node)
+            continue
+        except Exception as e:     # a pattern the regex parser rejects fails at import time, not here
+            raise AnalysisError(f"R04i: pattern {pat!r} does not parse: {e}")
+        run.check("R04i", where, f"{what}: `{pat[:50]}` has no exponentially ambiguous repetition", w is None,
+                  construct=f"exponential backtracking: {what}",
+                  message=f"{what}: the pattern {pat!r} has {w}: a run of such text followed by a character that makes the "
+                          f"match fail is retried in exponentially many ways",
+                  necessity="a hostile string of a few dozen characters keeps the parse busy for hours: 'no input makes "
+                            "the call loop forever' fails", node=node)
+
+
 def check(run):
     run.rules_run += ["R04a", "R04b", "R04c", "R04d", "R04e"]
     run.explain("C04: (R04a) every converter / validator / class-held constructor call in the parse core is inside a "
@@ -945,3 +1025,5 @@ def check(run):
     r04g(run)
     run.rules_run.append("R04h")
     r04h(run)
+    run.rules_run.append("R04i")
+    r04i(run)
